@@ -37,6 +37,8 @@ def histories(n, key):
     hs.append([("nth", i) for i in order] + [("nth", n), ("it", 2), ("nth", 0), ("it", -1), ("count",)])
     if n:
         hs.append([("seek", n - 1), ("it", -1), ("seek", 0), ("it", 1), ("nth", n - 1), ("it", -1)])
+        # iterator adaptors: skip / take inside and beyond the index
+        hs.append([("skiptake", 1, 1), ("skiptake", n, 1), ("seek", 0), ("skiptake", n - 1, 2), ("nth", 0), ("skiptake", 0, n + 1)])
     return hs
 
 
